@@ -73,35 +73,39 @@ structure Out (α : Type) where
   between : Nat
   branchXpos : Bool
 
+/-- everything `create_fracs` does after the given points below the limit have been discarded: (lo, nx) is the first remaining segment -/
+def afterSkip (natToα : Nat → α) (dlim : α) (lo nx : α × α) (rest : List (α × α)) (pointsLeft numFracs : Nat) : Out α :=
+  let flow := lo.1
+  let dlow := lo.2
+  let fnext := nx.1
+  let dnext := nx.2
+  let X := fnext - (Transc.log10 dnext - Transc.log10 dlim) * (fnext - flow) / (Transc.log10 dnext - Transc.log10 dlow)
+  let pos := decide (X > (0.0 : α))
+  let d0 : FDict α := if pos then [(X, dlim)] else []
+  let dmin := if pos then dlim else
+    pow10 (Transc.log10 dnext - (Transc.log10 dnext - Transc.log10 dlow) * (fnext - (0.0 : α)) / (fnext - flow))
+  let X := if pos then X else (0.0 : α)
+  let numDivs := numFracs - pointsLeft - 1
+  -- `ceil(num_divs / points_left)`: a negative quotient (more points than fractions) is above -1, so it rounds up to 0 = truncated subtraction
+  let between := (numDivs + pointsLeft - 1) / pointsLeft
+  let (d, fracSize) := segments between natToα (rest.length + 1) X dmin nx rest d0 (0.0 : α)
+  let s := sortF d
+  match s.reverse with
+  | top :: below :: _ =>
+    let fthis := pyMin (top.1 + fracSize) (0.999 : α)
+    let logd := logInterp below.1 below.2 top.1 top.2 fthis
+    { gsd := sortF (setF d fthis (pow10 logd)), X := X, between := between, branchXpos := pos }
+  | _ => { gsd := s, X := X, between := between, branchXpos := pos }
+
 /-- `create_fracs(GSD, Dp, nu, rhol, rhos, num_fracs)` for an input distribution given sorted by fraction (≥ 2 points).
-`natToα` converts small naturals, `truncNat` is Python's `int()` on a non-negative float. -/
+`natToα` converts small naturals (`truncNat`, Python's `int()`, is no longer used since the rounding repair). -/
 def createFracs (natToα : Nat → α) (truncNat : α → Nat) (pts : List (α × α)) (Dp nu rhol rhos : α) (numFracs : Nat) : Out α :=
+  let _ := truncNat
   match pts with
   | lo :: nx :: rest =>
     let dlim := framework.pseudo_dlim Dp nu rhol rhos
-    let (lo, nx, rest, pointsLeft) := skipBelow dlim pts.length lo nx rest (pts.length - 1)
-    let flow := lo.1
-    let dlow := lo.2
-    let fnext := nx.1
-    let dnext := nx.2
-    let X := fnext - (Transc.log10 dnext - Transc.log10 dlim) * (fnext - flow) / (Transc.log10 dnext - Transc.log10 dlow)
-    let pos := decide (X > (0.0 : α))
-    let d0 : FDict α := if pos then [(X, dlim)] else []
-    let dmin := if pos then dlim else
-      pow10 (Transc.log10 dnext - (Transc.log10 dnext - Transc.log10 dlow) * (fnext - (0.0 : α)) / (fnext - flow))
-    let X := if pos then X else (0.0 : α)
-    let numDivs := numFracs - pointsLeft - 1
-    -- `ceil(num_divs / points_left)`: a negative quotient (more points than fractions) is above -1, so it rounds up to 0 = truncated subtraction
-    let _ := truncNat
-    let between := (numDivs + pointsLeft - 1) / pointsLeft
-    let (d, fracSize) := segments between natToα (rest.length + 1) X dmin nx rest d0 (0.0 : α)
-    let s := sortF d
-    match s.reverse with
-    | top :: below :: _ =>
-      let fthis := pyMin (top.1 + fracSize) (0.999 : α)
-      let logd := logInterp below.1 below.2 top.1 top.2 fthis
-      { gsd := sortF (setF d fthis (pow10 logd)), X := X, between := between, branchXpos := pos }
-    | _ => { gsd := s, X := X, between := between, branchXpos := pos }
+    let sk := skipBelow dlim pts.length lo nx rest (pts.length - 1)
+    afterSkip natToα dlim sk.1 sk.2.1 sk.2.2.1 sk.2.2.2 numFracs
   | _ => { gsd := [], X := Transc.nan, between := 0, branchXpos := false }
 
 /-- `Slurry.get_dx(frac)` on a discretised grading: `none` = ValueError (fraction outside (0,1)) -/
